@@ -151,6 +151,8 @@ class C19(SchedProp):
     kinds = ('cmd', 'cmdany')
     gen_opts = {'cmds': CMDS, 'p_cmd': 0.15, 'restarts': [1, 2, 3]}
     diff_opts = {'p_suicide': 0.0}
+    # bursts of broadcast set / clear / expire requests between main loops (runner policy key p_bcast)
+    p_bcast = 0.12
     # (command cases, base workflows, interrupted variants per base workflow)
     sizes = {'quick': (20, 5, 5), 'thorough': (150, 28, 16)}
 
@@ -160,13 +162,16 @@ class C19(SchedProp):
             n_cmd, n_base, n_var = 300, 40, 16
         base = rng.randrange(1 << 30)
         for k in range(n_cmd):
-            yield sgen.gen_case(base + k, self.kinds[k % len(self.kinds)], self.gen_opts)
+            c = sgen.gen_case(base + k, self.kinds[k % len(self.kinds)], self.gen_opts)
+            c['policy']['p_bcast'] = self.p_bcast
+            yield c
         for b in range(n_base):
             seed = base + 100000 + b
             a = sgen.gen_case(seed, 'complete', self.diff_opts)
             a['id'] = f'base{seed}'
             a['policy']['outcome_by_key'] = True
             a['policy']['max_steps'] = 700
+            a['policy']['p_bcast'] = self.p_bcast
             yield a
             for j in range(n_var):
                 v = copy.deepcopy(a)
@@ -179,6 +184,12 @@ class C19(SchedProp):
                              'twice': j % 3 == 2}
                 v['base'] = a
                 yield v
+
+    def translate(self):
+        # Sched2B imports the broadcast component model of C22, whose configuration table is generated
+        from props.c22 import PROP as c22
+        c22.setup()
+        return c22.translate()
 
     # -- paired runs -------------------------------------------------------------------------
     def impl_batch(self, inputs):
